@@ -26,6 +26,7 @@ CASES = {
     'parts':    {'entries': 1, 'alternatives': 1, 'archqual': True, 'archs': 2, 'negation': False, 'profile_groups': 1, 'profile_terms': 1, 'version_kinds': 2, 'ws_styles': 1},
     'profiles': {'entries': 1, 'alternatives': 1, 'profile_groups': 2, 'profile_terms': 2, 'version_kinds': 1, 'ws_styles': 1},
     'field':    {'entries': 2, 'alternatives': 2, 'version_kinds': 1, 'ws_styles': 1},
+    'groups3':  {'entries': 1, 'alternatives': 1, 'profile_groups': 3, 'profile_terms': 1, 'no_version': True, 'ws_styles': 1},
 }
 
 
@@ -36,7 +37,7 @@ class C14(Harness):
     fuel = 300000
     bounds = {'quick': CASES, 'thorough': dict(CASES, big={'entries': 2, 'alternatives': 2, 'archqual': True, 'archs': 2, 'negation': False, 'profile_groups': 1, 'profile_terms': 2, 'version_kinds': 4, 'ws_styles': 1, 'ident_chars': 2})}
     assumptions = ['lossy Relation values are assembled from components generated like C10 (identifier characters symbolic in [A-Za-z0-9.+~-], first alphanumeric; versions digit | digit:digit | digit~x | digit-digit); architectures are plain names (the lossy type has no negation)',
-                   'every optional part present/absent, 0..2 architectures, 0..2 profile groups of 1..2 possibly negated terms; Relations of up to 2 entries x 2 alternatives']
+                   'every optional part present/absent, 0..2 architectures, 0..2 profile groups of 1..2 possibly negated terms (and 0..3 single-term groups); Relations of up to 2 entries x 2 alternatives']
 
     def cases(self, tier): return [{'name': k, 'cfg': v, 'order': i} for i, (k, v) in enumerate(self.bounds[tier].items())]
 
